@@ -37,7 +37,10 @@ body (private helpers of the same class inlined) is known to the analysis, and o
 at every point where the assigned value can be rejected, either no object state has been changed yet, or the point lies in a
 `try … except Exception: …; raise` whose handler undoes every change made so far — a rebound attribute is assigned the reference that was saved
 before it was rebound, an attribute set on every element of an iterable is set again in a loop over the same iterable, a recomputed view is
-recomputed after the attribute writes — and re-raises.  A new or changed setter is covered by the quantifier. -/
+recomputed after the attribute writes — and re-raises.  A new or changed setter is covered by the quantifier.
+(audit2: NOT in one respect — `SetterForm.pathsS` drops a handler it does not recognise as a restore (narrower `except`, a branch in it, `raise X`)
+without looking at its writes, and does not ask whether a recognised handler writes anything ELSE: `form_ignores_unrestoring_handlers` below;
+`setters_reject_without_change_strict` closes both for the regenerated table.) -/
 theorem setters_reject_without_change : ∀ s ∈ Setters.setters, SetterForm.form s = true := by
   decide
 
@@ -119,7 +122,11 @@ theorem dropped_restore_is_flagged :
 
 /-- what the two forms mean for a run, along any path the analysis accepts: (1) when the method is left at a point of rejection that no
 handler surrounds, no change of object state has happened before it; (2) when it is left at a point of rejection under a restoring handler,
-every change of object state that happened before it is one the handler undoes (with the references saved at that moment) -/
+every change of object state that happened before it is one the handler undoes (with the references saved at that moment).
+(audit2: a statement about the EVENT LIST and the syntactic predicate `covered`, not about an execution: there is no state semantics of the
+statement tree in the framework.  And conclusion (2) reads `∃ saved, covered saved hd e`: for a rebound attribute that is "the handler contains
+SOME `.restore t l`" — choose `saved := [(l, t)]`; that the reference was taken BEFORE the attribute was rebound is checked by `rwcAux`
+(witness 5 of `dropped_restore_is_flagged`) but is not part of this conclusion.) -/
 theorem rwc_no_unrestored_change_before_rejection (evs : List SetterForm.Ev) (h : SetterForm.rwc evs = true) (i : Nat) :
     (∀ w, evs[i]? = some (.mayRaise w) → ∀ j, j < i → ∀ e, evs[j]? = some e → e.isWrite = false) ∧
     (∀ w hd, evs[i]? = some (.mayRaiseR w hd) →
@@ -416,7 +423,9 @@ theorem ctor_args_keep_their_names :
 /-- … and followed through the base classes every parameter ends in: the setter of the same name; for `position` / `orientation` the call
 `_init_position_orientation(position, orientation)`; for `style` the call `_process_style_kwargs(style=…)`; for the TriangularMesh arguments
 `_input_check(vertices, faces)` and the four check methods (`mode=`); for `override_parent` the call of `add`.  Nothing is unused, nothing is
-stored as a plain attribute. -/
+stored as a plain attribute.  (audit2: `resolveCtor` follows the FIRST row of a (class, parameter) pair, so a parameter that is assigned through
+its setter and ALSO stored as a plain attribute would pass here; and an empty table passes: both excluded by
+`ctor_table_is_total_and_single_valued` below.) -/
 theorem ctor_args_reach_their_setters :
     ∀ r ∈ Setters.ctors,
       let res := resolveCtor Setters.ctors 5 r.1 r.2.1
@@ -532,7 +541,9 @@ theorem pixel_agg_documented_names :
        "nanstd", "nansum", "nanvar", "prod", "ptp", "std", "sum", "var"] := by
   decide
 
-/-- a documented aggregator never fails at its later use in `getBH_level2`, whichever of the two calls is made -/
+/-- a documented aggregator never fails at its later use in `getBH_level2`, whichever of the two calls is made.
+(audit2: by definition — `docPixelAgg` IS "returns a number ∧ reduces over an axis tuple ∧ reduces over one axis", and `pixelAggUse` returns the
+second / third column; what carries content is the probed table `Gen.NpNames.table`, the pinned lists above and the `pixelagguse` stream rows.) -/
 theorem pixel_agg_documented_never_fails_later (tbl : NpTable) (n : String) (same : Bool) (h : docPixelAgg tbl (.str n) = true) :
     pixelAggUse tbl n same = true := by
   unfold docPixelAgg at h
@@ -697,7 +708,10 @@ example : validateMode .none = .error (.foreign "ValueError") := by rfl
 /-! ## `in_out` of getB / getH / getJ / getM: validated nowhere -/
 
 /-- no call in `getBH_level2`, `getBH_dict_level2` or `getBH_level1` receives `in_out` as an argument of a check (regenerated: the day a validator is
-added this breaks and the model below has to follow) -/
+added this breaks and the model below has to follow).
+(audit2: the generator looks at POSITIONAL arguments only (`n.args`); the source passes `in_out` by keyword everywhere (`in_out=in_out`), so a
+validator called as `check(in_out=in_out)` would NOT show here.  What ties the statement "nothing validates in_out" to the code is the `inout`
+rows of the callargs stream, not this equality.) -/
 theorem inout_is_validated_nowhere : Setters.inOutChecks = [] := by decide
 
 /-- C17 (`in_out`): a documented value is accepted and has its documented meaning for both classes that look at it -/
@@ -956,5 +970,73 @@ theorem callarg_skeletons_are_modelled :
         ("point_inside (in_out tests)", ["if in_out == 'inside'", "if in_out == 'outside'"]),
         ("BHJM_magnet_trimesh (in_out tests)", ["if in_out == 'auto'", "if in_out == 'inside'"])] := by
   rfl
+
+/-! ## audit2: what `SetterForm.form` does not look at, and the constructor table as a function -/
+
+/-- every write event on any path of the setter -/
+def setterWrites (s : Setters.Setter) : List SetterForm.Ev :=
+  (SetterForm.pathsL s.body).flatMap fun p => p.1.filter (·.isWrite)
+
+/-- a handler write that puts back something the setter itself writes: a local into an attribute the setter rebinds, the per-element attribute
+the setter sets in a loop over the same iterable, a recomputation the setter also calls; an attribute assigned any other expression
+(`HW.assign`) never counts -/
+def hwUndoes (ws : List SetterForm.Ev) : SetterForm.HW → Bool
+  | .restore t _ => ws.contains (.mutate t)
+  | .assignElem t => ws.contains (.mutateElem t)
+  | .call c => ws.contains (.mutate c)
+  | .assign _ => false
+
+mutual
+/-- every `try` anywhere in the body has a handler the path analysis recognises as a restore (`goodHandler`: otherwise `pathsS` analyses the
+`try` body alone and never looks at what the handler writes), and every write of that handler is an undo of a write of the setter -/
+def handlersOnlyRestoreS (ws : List SetterForm.Ev) : Setters.Stmt → Bool
+  | .ite _ thn els => handlersOnlyRestoreL ws thn && handlersOnlyRestoreL ws els
+  | .loop _ body => handlersOnlyRestoreL ws body
+  | .tryExcept body exc h =>
+    SetterForm.goodHandler exc h && (SetterForm.hwsL h).all (hwUndoes ws) && handlersOnlyRestoreL ws body
+  | .inline _ _ body => handlersOnlyRestoreL ws body
+  | _ => true
+def handlersOnlyRestoreL (ws : List SetterForm.Ev) : List Setters.Stmt → Bool
+  | [] => true
+  | s :: r => handlersOnlyRestoreS ws s && handlersOnlyRestoreL ws r
+end
+
+def formStrict (s : Setters.Setter) : Bool := SetterForm.form s && handlersOnlyRestoreL (setterWrites s) s.body
+
+/-- C17 (every setter, regenerated; audit2 strengthening of `setters_reject_without_change`): in addition, every exception handler in every
+setter is one the analysis reads (catches `Exception`, straight-line, ends in a bare `raise`) and writes nothing but undos of the setter's own
+writes -/
+theorem setters_reject_without_change_strict : ∀ s ∈ Setters.setters, formStrict s = true := by
+  decide
+
+/-- witnesses of the gap: four setters that DO change state on a rejected value — the handler writes `self._x` (resp. a new attribute `self._y`)
+and then raises — pass `SetterForm.form`: a handler with a narrower `except`, with a branch, or ending in `raise X` is dropped unread; a handler
+that is read may write more than it restores.  `formStrict` flags all four and accepts the source's `children` setter. -/
+theorem form_ignores_unrestoring_handlers :
+    let mk := fun (b : List Setters.Stmt) => (⟨"f", "C", "x", "v", b⟩ : Setters.Setter)
+    let narrow := mk [.tryExcept [.assign "w" false ["check_format_input_scalar"]] "ValueError" [.assign "self._x" true [], .raise ""],
+                      .restore "self._x" "w"]
+    let branch := mk [.tryExcept [.assign "w" false ["check_format_input_scalar"]] "Exception"
+                        [.ite [] [.assign "self._x" true []] [], .raise ""], .restore "self._x" "w"]
+    let other := mk [.tryExcept [.assign "w" false ["check_format_input_scalar"]] "Exception"
+                        [.assign "self._x" true [], .raise "MagpylibBadUserInput"], .restore "self._x" "w"]
+    let extra := mk [.tryExcept [.assign "w" false ["check_format_input_scalar"]] "Exception" [.assign "self._y" true [], .raise ""],
+                      .restore "self._x" "w"]
+    [narrow, branch, other, extra].map SetterForm.form = [true, true, true, true] ∧
+    [narrow, branch, other, extra].map formStrict = [false, false, false, false] ∧
+    formStrict ⟨"class_Collection.py", "BaseCollection", "children", "children", childrenBody childrenHandler "Exception" true⟩ = true := by
+  decide
+
+/-- the constructor table is not empty (the classes with named `__init__` parameters are these 18; `Loop` / `Line` take `*args, **kwargs` only),
+every row is consumed by a setter, a base-class constructor or a call — no row is "plain" or "unused" —, and no (class, parameter) pair has two
+rows, so `resolveCtor` (first row) follows the only row -/
+theorem ctor_table_is_total_and_single_valued :
+    (Setters.ctors.map (·.1)).eraseDups =
+      ["BaseSource", "BaseMagnet", "BaseCurrent", "BaseGeo", "BaseCollection", "Collection", "Sensor", "Circle", "Polyline", "Cuboid",
+       "Cylinder", "CylinderSegment", "Sphere", "Tetrahedron", "TriangularMesh", "CustomSource", "Dipole", "Triangle"] ∧
+    (∀ c ∈ Setters.initOf, c.2.1 = true → c.1 ∈ Setters.ctors.map (·.1) ∨ c.1 = "Loop" ∨ c.1 = "Line") ∧
+    (∀ r ∈ Setters.ctors, r.2.2.1 = "setter" ∨ r.2.2.1 = "forward" ∨ r.2.2.1 = "call") ∧
+    (Setters.ctors.map fun r => (r.1, r.2.1)).Nodup := by
+  decide
 
 end MagpyVerif.C17
